@@ -138,7 +138,7 @@ func (f *rtFiller) fill(v reflect.Value, depth int) {
 		f.fill(p.Elem(), depth+1)
 		v.Set(p)
 	case reflect.Slice:
-		if f.nilOK(30, 10) {
+		if depth > 5 || f.nilOK(30, 10) { // (depth: self-referential types)
 			v.Set(reflect.Zero(v.Type()))
 			return
 		}
@@ -171,7 +171,7 @@ func (f *rtFiller) fill(v reflect.Value, depth int) {
 			f.fill(v.Index(i), depth+1)
 		}
 	case reflect.Map:
-		if f.nilOK(30, 10) {
+		if depth > 5 || f.nilOK(30, 10) {
 			v.Set(reflect.Zero(v.Type()))
 			return
 		}
